@@ -107,6 +107,9 @@ def gen_one(rng, i, tier):
         weights = [rng.randint(1, 5) for _ in range(ns)]
     elif wkind == "dyadic":
         weights = [rng.randint(1, 40) / 8.0 for _ in range(ns)]
+        if rng.random() < 0.25:
+            # tiny sample weights (importance weights ~1e-12): positive, so the population is not empty however small
+            weights = [w * 2.0 ** -43 for w in weights]
     elif wkind == "float":
         weights = [rng.uniform(0.01, 10.0) for _ in range(ns)]
     else:
@@ -117,6 +120,10 @@ def gen_one(rng, i, tier):
     for d in shape:
         nmat *= d
     stack = [gen_matrix(rng, n, skind) for _ in range(nmat)]
+    if skind == "dyadic" and rng.random() < 0.25:
+        # a stack of matrices on a tiny scale (weighted counts ~1e-12, exact powers of two): "empty" means exactly zero
+        k_ = rng.choice([2.0 ** -43, 2.0 ** -300])
+        stack = [[[c * k_ for c in row] for row in m] for m in stack]
     extra = (max(universe) + 1 + rng.randrange(3)) if ctype == "int" else "q" + str(rng.randrange(9))
     return {"ctype": ctype, "universe": universe, "mode": mode, "labels": labels, "preds": preds,
             "wkind": wkind, "weights": weights, "shape": shape, "skind": skind, "stack": stack,
@@ -127,7 +134,10 @@ def gen_one(rng, i, tier):
             # sums, traces and totals need not
             "narrow": rng.choice(["u1", "u1", "i2", "i4", "u2"]) if rng.random() < 0.15 else None,
             # the stack is held by an instance of a user subclass with its own constructor signature
-            "subclass": rng.random() < 0.15}
+            "subclass": rng.random() < 0.15,
+            # weights as a pandas Series whose index is not 0..n-1 in order (a column of a shuffled / filtered frame): weights
+            # belong to samples by POSITION
+            "wseries": weights is not None and rng.random() < 0.2}
 
 
 def nontrivial(inp):
@@ -281,6 +291,11 @@ def build(inp) -> Case:
             w = np.asarray(w)
         if w is not None and inp.get("narrow") and inp["wkind"] == "int" and len(w) and max(w) < 120:
             w = np.asarray(w, dtype=NARROW[inp["narrow"]])
+        elif w is not None and inp.get("wseries") and len(w) and inp["wkind"] != "int":
+            r_ = random.Random(inp["seed"])
+            idx_ = list(range(len(w))) if r_.random() < 0.6 else list(range(3, 3 + 2 * len(w), 2))  # permuted / filtered frame
+            r_.shuffle(idx_)
+            w = pd.Series(np.asarray(w, dtype=float), index=idx_)
         return common.call(lambda: ConfusionMatrix(labels=la, predictions=pr, weights=w, classes=classes_))
 
     def build_line(labels_, preds_, weights_, classes_, r, obs, eps):
